@@ -667,6 +667,169 @@ Proof.
   - intros a [<-|[<-|[]]]; cbn; tauto.
 Qed.
 
+(* ------------------------------------------------------------------------------------------ *)
+(** * The same statements with explicit premises (the form re-exported by Properties/C*.v) *)
+Section Explicit.
+Variable oracle : nat -> cnf -> list lit -> answer.
+Variable thr : nat.
+Variable g : gview.
+Variable F : af.
+Hypothesis Hvalid : valid_oracle oracle.
+Hypothesis Hthr : 1 <= thr.
+Hypothesis Hvg : view_good g F.
+
+Lemma mk_query_ok s q e al : supported s q -> enc_ok s e -> al_ok s q F al ->
+  query_ok oracle thr g F s q e al.
+Proof using Hvalid Hthr Hvg. unfold query_ok. tauto. Qed.
+
+Theorem top_run_query : forall s q e al fuel cert st0,
+  supported s q -> enc_ok s e -> al_ok s q F al ->
+  run_ok (run_query oracle thr fuel s q cert e g al st0) (calls st0)
+         (total_bound s e (query_comps s q cert g al))
+         (fuel_ok s e (query_comps s q cert g al) fuel)
+         (outcome_spec s q cert F al).
+Proof using Hvalid Hthr Hvg.
+  intros s q e al fuel cert st0 Hs He Ha. exact (run_query_top _ _ _ _ _ _ _ _ _ _ _ (mk_query_ok s q e al Hs He Ha)).
+Qed.
+
+Theorem top_single_extension : forall s e al fuel cert st0,
+  supported s QSE -> enc_ok s e ->
+  match run_query oracle thr fuel s QSE cert e g al st0 with
+  | Done (OExt (Some L)) _ => ext s F L /\ NoDup L /\ incl L (args F)
+  | Done (OExt None) _ => s = ST /\ forall S, ~ ext s F S
+  | Done (OAcc _ _) _ => False
+  | Panic _ => False
+  | _ => True
+  end.
+Proof using Hvalid Hthr Hvg.
+  intros s e al fuel cert st0 Hs He. exact (single_extension _ _ _ _ _ _ _ _ _ _ (mk_query_ok s QSE e al Hs He I)).
+Qed.
+
+Theorem top_credulous : forall s e al fuel cert st0,
+  supported s QDC -> enc_ok s e -> al_ok s QDC F al ->
+  match run_query oracle thr fuel s QDC cert e g al st0 with
+  | Done (OAcc b _) _ => b = true <-> cred s F al
+  | Done (OExt _) _ => False
+  | Panic _ => False
+  | _ => True
+  end.
+Proof using Hvalid Hthr Hvg.
+  intros s e al fuel cert st0 Hs He Ha. exact (credulous _ _ _ _ _ _ _ _ _ _ (mk_query_ok s QDC e al Hs He Ha)).
+Qed.
+
+(* DC-PR is answered by the complete solver (credulous acceptance coincides under CO and PR) *)
+Theorem top_credulous_preferred : forall e al fuel cert st0,
+  enc_ok CO e -> al_ok CO QDC F al ->
+  match run_query oracle thr fuel CO QDC cert e g al st0 with
+  | Done (OAcc b _) _ => b = true <-> cred PR F al
+  | Done (OExt _) _ => False
+  | Panic _ => False
+  | _ => True
+  end.
+Proof using Hvalid Hthr Hvg.
+  intros e al fuel cert st0 He Ha. pose proof (top_credulous CO e al fuel cert st0 I He Ha) as H.
+  destruct (run_query oracle thr fuel CO QDC cert e g al st0) as [[r|b c] s1|s1|s1|s1]; try exact H.
+  rewrite H. exact (cred_co_pr F al (vg_wf g F Hvg)).
+Qed.
+
+Theorem top_skeptical : forall s e al fuel cert st0,
+  supported s QDS -> enc_ok s e -> al_ok s QDS F al ->
+  match run_query oracle thr fuel s QDS cert e g al st0 with
+  | Done (OAcc b _) _ => b = true <-> skep s F al
+  | Done (OExt _) _ => False
+  | Panic _ => False
+  | _ => True
+  end.
+Proof using Hvalid Hthr Hvg.
+  intros s e al fuel cert st0 Hs He Ha. exact (skeptical _ _ _ _ _ _ _ _ _ _ (mk_query_ok s QDS e al Hs He Ha)).
+Qed.
+
+Theorem top_certificates : forall s q e al fuel cert st0,
+  q <> QSE -> supported s q -> enc_ok s e -> al_ok s q F al ->
+  match run_query oracle thr fuel s q cert e g al st0 with
+  | Done (OAcc b (Some L)) _ =>
+      cert = true /\ b = qpol q /\ ext s F L /\ NoDup L /\ incl L (args F) /\
+      (if qpol q then exists a, In a al /\ In a L else forall a, In a al -> ~ In a L)
+  | Done (OAcc b None) _ => cert = true -> b = negb (qpol q)
+  | Done (OExt _) _ => False
+  | Panic _ => False
+  | _ => True
+  end.
+Proof using Hvalid Hthr Hvg.
+  intros s q e al fuel cert st0 Hq Hs He Ha.
+  exact (certificates _ _ _ _ _ _ _ _ _ _ _ (mk_query_ok s q e al Hs He Ha) Hq).
+Qed.
+
+Theorem top_lists : forall s q e al fuel cert st0,
+  q <> QSE -> supported s q -> enc_ok s e -> al_ok s q F al ->
+  match run_query oracle thr fuel s q cert e g al st0 with
+  | Done (OAcc b _) _ =>
+      b = true <-> if qpol q then exists a, In a al /\ cred s F [a]
+                   else forall S, ext s F S -> exists a, In a al /\ In a S
+  | Done (OExt _) _ => False
+  | Panic _ => False
+  | _ => True
+  end.
+Proof using Hvalid Hthr Hvg.
+  intros s q e al fuel cert st0 Hq Hs He Ha.
+  exact (lists _ _ _ _ _ _ _ _ _ _ _ (mk_query_ok s q e al Hs He Ha) Hq).
+Qed.
+
+Theorem top_call_bound : forall s q e al fuel cert st0,
+  supported s q -> enc_ok s e -> al_ok s q F al ->
+  decomp_ok F (query_comps s q cert g al) /\
+  match run_query oracle thr fuel s q cert e g al st0 with
+  | Done _ s' | Abort s' | OutOfFuel s' =>
+      calls s' <= calls st0 + total_bound s e (query_comps s q cert g al)
+  | Panic _ => False
+  end.
+Proof using Hvalid Hthr Hvg.
+  intros s q e al fuel cert st0 Hs He Ha. split; [exact (query_comps_decomp g F s q cert al Hvg Ha)|].
+  exact (call_bound _ _ _ _ _ _ _ _ _ _ _ (mk_query_ok s q e al Hs He Ha)).
+Qed.
+
+Theorem top_terminates : forall s q e al fuel cert st0,
+  supported s q -> enc_ok s e -> al_ok s q F al ->
+  (forall c, In c (query_comps s q cert g al) -> 2 * comp_bound s e c + 4 <= fuel) ->
+  match run_query oracle thr fuel s q cert e g al st0 with
+  | OutOfFuel _ | Panic _ => False
+  | _ => True
+  end.
+Proof using Hvalid Hthr Hvg.
+  intros s q e al fuel cert st0 Hs He Ha.
+  exact (terminates_per_component _ _ _ _ _ _ _ _ _ _ _ (mk_query_ok s q e al Hs He Ha)).
+Qed.
+
+Theorem top_terminates_sum : forall s q e al fuel cert st0,
+  supported s q -> enc_ok s e -> al_ok s q F al ->
+  2 * total_bound s e (query_comps s q cert g al) + 4 <= fuel ->
+  match run_query oracle thr fuel s q cert e g al st0 with
+  | OutOfFuel _ | Panic _ => False
+  | _ => True
+  end.
+Proof using Hvalid Hthr Hvg.
+  intros s q e al fuel cert st0 Hs He Ha.
+  exact (terminates _ _ _ _ _ _ _ _ _ _ _ (mk_query_ok s q e al Hs He Ha)).
+Qed.
+End Explicit.
+
+Theorem top_status_function_of_semantics :
+  forall o1 o2 thr1 thr2 g1 g2 F s q e1 e2 al fuel1 fuel2 cert1 cert2 st1 st2 b1 c1 t1 b2 c2 t2,
+  valid_oracle o1 -> valid_oracle o2 -> 1 <= thr1 -> 1 <= thr2 ->
+  view_good g1 F -> view_good g2 F ->
+  q <> QSE -> supported s q -> enc_ok s e1 -> enc_ok s e2 -> al_ok s q F al ->
+  run_query o1 thr1 fuel1 s q cert1 e1 g1 al st1 = Done (OAcc b1 c1) t1 ->
+  run_query o2 thr2 fuel2 s q cert2 e2 g2 al st2 = Done (OAcc b2 c2) t2 ->
+  b1 = b2.
+Proof.
+  intros o1 o2 thr1 thr2 g1 g2 F s q e1 e2 al fuel1 fuel2 cert1 cert2 st1 st2 b1 c1 t1 b2 c2 t2
+         Hv1 Hv2 Ht1 Ht2 Hg1 Hg2 Hq Hs He1 He2 Ha.
+  apply (status_function_of_semantics o1 o2 thr1 thr2 g1 g2 F s q e1 e2 al fuel1 fuel2 cert1 cert2
+           st1 st2 b1 c1 t1 b2 c2 t2); try assumption.
+  - exact (mk_query_ok o1 thr1 g1 F Hv1 Ht1 Hg1 s q e1 al Hs He1 Ha).
+  - exact (mk_query_ok o2 thr2 g2 F Hv2 Ht2 Hg2 s q e2 al Hs He2 Ha).
+Qed.
+
 (* stores: every framework reachable from [new_with_labels] by any update history *)
 Corollary run_query_store : forall L (leqb : L -> L -> bool),
   (forall x y, leqb x y = true <-> x = y) ->
@@ -728,5 +891,16 @@ Print Assumptions call_bound.
 Print Assumptions terminates.
 Print Assumptions terminates_per_component.
 Print Assumptions status_function_of_semantics.
+Print Assumptions top_run_query.
+Print Assumptions top_single_extension.
+Print Assumptions top_credulous.
+Print Assumptions top_credulous_preferred.
+Print Assumptions top_skeptical.
+Print Assumptions top_certificates.
+Print Assumptions top_lists.
+Print Assumptions top_call_bound.
+Print Assumptions top_terminates.
+Print Assumptions top_terminates_sum.
+Print Assumptions top_status_function_of_semantics.
 Print Assumptions run_query_store.
 Print Assumptions run_example.
